@@ -47,7 +47,7 @@ def expected_sk_checkForCycles : String :=
   "if(l0:=recv.progress.cycleDetector.Check();l0!=nil){recv.LogBuildError(l0.Cycle[0].Label,TargetBuildFailed,l0,\"\");recv.Stop()}"
 
 def expected_sk_Build : String :=
-  "p1.SetState(core.Building);if(l1:=buildTarget(p0,p1,p2);l1!=nil){if(errors.Is(l1,errStop)){p1.SetState(core.Stopped);p0.LogBuildResult(p1,core.TargetBuildStopped,\"Buildstopped\");return};p0.LogBuildError(p1.Label,core.TargetBuildFailed,l1,\"Buildfailed:%s\",l1);p1.SetState(core.Failed);p1.FinishBuild();return};p1.FinishBuild()"
+  "p1.SetState(core.Building);if(l1:=buildTarget(p0,p1,p2);l1!=nil){if(errors.Is(l1,errStop)){p1.SetState(core.Stopped);p0.LogBuildResult(p1,core.TargetBuildStopped,\"Buildstopped\");return};p0.LogBuildError(p1.Label,core.TargetBuildFailed,l1,\"Buildfailed:%s\",l1);p1.SetState(core.Failed);p1.FinishBuild();p0.TargetFailed(p1);return};p1.FinishBuild()"
 
 def expected_sk_Run : String :=
   "completeAction:=func{if(l6.Type!=core.BuildTask){p2.TaskDone();return};if(!l6.Target.State().IsBuilt()){p2.TaskDone();return};p2.TaskDone()};go func{range(l0){go func{p2.Parses().Add(1);parse.Parse(p2,l10.Label,l10.Dependent,l10.Mode);p2.Parses().Add(-1);p2.TaskDone()}(l9)}}();go func{range(l1){go func{defer completeAction(l13,l12);switch(l12.Type){case(core.BuildTask){build.Build(p2,l12.Target,l13)}}}(l11)}}()"
@@ -69,6 +69,41 @@ def expected_sk_handleOutput : String :=
 
 def expected_sk_buildTarget : String :=
   "if(p2){}else{if(!p1.IsFilegroup&&!needsBuilding(p0,p1,false)){if(!p1.BuildCouldModifyTarget()||!needsBuilding(p0,p1,true)){p1.SetState(core.Reused);p0.LogBuildResult(p1,core.TargetCached,\"Unchanged\");returnnil}};if(p1.IsFilegroup){if(l12){p1.SetState(core.Built);p0.LogBuildResult(p1,core.TargetBuilt,\"Built\")}else{p1.SetState(core.Unchanged);p0.LogBuildResult(p1,core.TargetCached,\"Unchanged\")};returnnil}};if(p2){if(l7.Cached){p1.SetState(core.ReusedRemotely);p0.LogBuildResult(p1,core.TargetBuilt,\"Reusedexistingaction\")}else{p1.SetState(core.BuiltRemotely);p0.LogBuildResult(p1,core.TargetBuilt,\"Builtremotely\")};if(p0.ShouldDownload(p1)){if(l23:=p0.EnsureDownloaded(p1);l23!=nil){returnl23}};returnnil};if(l26){p1.SetState(core.Built)}else{p1.SetState(core.Unchanged)};if(l26){p0.LogBuildResult(p1,core.TargetBuilt,\"Built\")}else{p0.LogBuildResult(p1,core.TargetBuilt,\"Built(unchanged)\")};returnnil"
+
+def expected_sk_LogBuildResult : String :=
+  "if(p1==TargetBuilt||p1==TargetCached){if(l0:=recv.progress.pendingTargets.Get(p0.Label);l0!=nil){close(l0)}}"
+
+def expected_sk_WaitForBuiltTarget : String :=
+  "if(l0:=recv.Graph.Target(p0);l0!=nil&&(l0.State().IsBuilt()||l0.State()>=DependencyFailed)){returnl0};if(l1,l2:=recv.progress.pendingTargets.AddOrGet(p0,func{});!l2){waitOnChan(l1,\"StillwaitingonWaitForBuiltTarget(label%v,dependant%v,ParseMode(%v))\",p0,p1,p2);returnrecv.Graph.Target(p0)};if(l3:=recv.queueTarget(p0,p1,p2.IsForSubinclude(),p2);l3!=nil){};returnrecv.WaitForBuiltTarget(p0,p1,p2)"
+
+def expected_sk_TargetFailed : String :=
+  "if(l0:=recv.progress.pendingTargets.Get(p0.Label);l0!=nil){select{comm(default){close(l0)}}}"
+
+def expected_sk_forwardResults : String :=
+  "l2:=time.NewTimer(cycleCheckDuration);for(;;){if(len(l1)==0){l2.Reset(cycleCheckDuration);select{comm(l3=<-recv.progress.internalResults){}comm(<-l2.C){go recv.checkForCycles();l3=<-recv.progress.internalResults}}}else{l3=<-recv.progress.internalResults};if(l3.Status.IsActive()){if(l3.target!=nil){l1[l3.Label]=struct{}{}}}else{delete(l1,l3.Label)}}"
+
+/-- `forwardResults`' set of active targets: keyed by label, a result with an active status and a target pointer adds
+    its label, every other result (failures included, which carry no target pointer) deletes its label; the cycle
+    check is started from the timer branch taken only while the set is empty -/
+def expectedActiveSet : List String := ["key:BuildLabel", "check:comm,empty", "add:IsActive,target!=nil:.Label", "del:!IsActive:.Label"]
+
+/-- who closes `pendingTargets[label]`: `LogBuildResult` on TargetBuilt / TargetCached (the DependencyFailed path logs
+    TargetBuilt), `TargetFailed` (unless already closed), `ArchSubrepoInitialised`; `build.Build` calls `FinishBuild` and
+    `TargetFailed` after `SetState(Failed)`; `WaitForBuiltTarget` returns at once for a built or a failed target -/
+def expectedWakeFacts : List String := ["close:LogBuildResult:p1==TargetBuilt||p1==TargetCached", "close:TargetFailed:unless-closed", "close:ArchSubrepoInitialised:", "failed-then:FinishBuild,TargetFailed", "return-at-once:t!=nil&&(t.State().IsBuilt()||t.State()>=DependencyFailed)"]
+
+/-- a failure result clears its target from the active set (so the idle-time cycle check is armed again) -/
+def failClearsOf (l : List String) : Bool :=
+  l.contains "key:BuildLabel" && l.contains "del:!IsActive:.Label" && l.contains "check:comm,empty"
+
+/-- the waiters of a target are signalled when its build fails -/
+def failWakesOf (l : List String) : Bool :=
+  l.contains "failed-then:FinishBuild,TargetFailed" &&
+    (l.contains "close:TargetFailed:unless-closed" || l.contains "close:TargetFailed:")
+
+/-- `WaitForBuiltTarget` does not wait for a target that has already failed -/
+def lateOKOf (l : List String) : Bool :=
+  l.contains "return-at-once:t!=nil&&(t.State().IsBuilt()||t.State()>=DependencyFailed)"
 
 /-- `numPending` starts at 1 (the initial target scan), the task queues are buffered channels -/
 def expectedInitFacts : List String := ["pendingParses:make(chanParseTask,10000)", "pendingActions:make(chanTask,1000)", "numPending:1"]
